@@ -5,6 +5,7 @@ use crate::f3::{history_strategy, run_history, History, StepRecord, World, N_PEE
 use crate::{ensure, fail};
 use litep2p::verif::scripted::{Call, Inject, MgrEvent};
 use multiaddr::Multiaddr;
+use proptest::prelude::*;
 use std::cell::RefCell;
 use std::collections::BTreeSet;
 
@@ -168,7 +169,9 @@ fn run_case_with(h: &History, avoid: bool) -> CaseResult {
         .class_if(f.reached_limit, "reached-a-limit")
         .class_if(f.closed_after_limit, "closed-after-reaching-limit")
         .class_if(f.two_per_peer, "two-connections-to-one-peer")
-        .class_if(f.surplus_rejected, "surplus-rejected"))
+        .class_if(f.surplus_rejected, "surplus-rejected")
+        .class_if(w.accept_failed > 0, "accept-call-failed-and-rolled-back")
+        .nt(w.accept_failed > 0))
 }
 
 pub fn run(ctx: &mut Ctx) {
@@ -187,6 +190,19 @@ pub fn run(ctx: &mut Ctx) {
     ctx.campaign("inbound-heavy", CampaignCfg::new(t.pick(60_000, 6_000_000)).shards(16), || history_strategy(40, false, 12, false), run_case);
     let depth = t.pick(4u32, 5);
     ctx.enumerate_indexed("small-scope-exhaustive", crate::f3::small_space_size(depth), 16, crate::f3::small_history, run_case);
+    // the Transport trait lets accept() fail (the TCP transport never does): the manager rolls the connection back and the
+    // capacity it had counted must be free again
+    ctx.campaign(
+        "accept-faults",
+        CampaignCfg::new(t.pick(30_000, 1_500_000)).shards(16),
+        || {
+            history_strategy(40, false, 10, false).prop_map(|mut h| {
+                h.accept_faults = true;
+                h
+            })
+        },
+        run_case,
+    );
     ctx.campaign("nodes", CampaignCfg::new(t.pick(240, 5_000)).shards(16).shrink_iters(8), super::c06_nodes::strategy, super::c06_nodes::run_case);
     ctx.campaign("long", CampaignCfg::new(t.pick(8_000, 900_000)).shards(16), || history_strategy(120, false, 10, false), run_case);
 }
